@@ -304,6 +304,57 @@ def judgeAuth (id : String) (fs : List String) (outs : List String) : String :=
     | _, _ => badline id
   | _, _ => badline id
 
+/-! ## svcoutput (C03): header-bound output members, status, extra headers -/
+
+def judgeOutput (id : String) (fs : List String) (outs : List String) : String :=
+  match fs, outs with
+  | [_cfg, _method, _target, _headers, _body, opn, expect], status :: _code :: calls :: respH :: _ =>
+    match Op.ofName opn with
+    | none => badline id
+    | some op =>
+      let calls := decodeList calls
+      let st := status.toNat!
+      if calls != [s!"backend:{op.backendMethod}:-:-:-"] then
+        specfail id ("output-not-reached:" ++ opn) s!"status={status}"
+      else if op == keepAliveOp then
+        -- header-bound members and extra headers of the keep-alive completion travel as trailers: component `keepalive`
+        if st == 200 then agree id "keep-alive-op-covered-by-keepalive" else specfail id ("output-status:" ++ opn) status
+      else
+        let resp : List (String × String) := (decodeList respH).map fun h => splitFirst h ':'
+        let expect : List (String × List String) := (decodeList expect).map fun e =>
+          let (m, t) := splitFirst e '|'
+          (m, t.splitOn "|")
+        let header := fun (w : String) => (resp.filter (fun p => p.1 == w)).map (·.2)
+        -- per member: wire name by the Smithy table (spec) and by the translated serializer table (model)
+        let wireOf := fun (tbl : Op → List Binding) (m : String) =>
+          let (base, sub) := splitFirst m '.'
+          match (tbl op).find? (fun b => bytesToString b.member == normName base) with
+          | some b => if b.loc == .header then some (bytesToString b.wire)
+                      else if b.loc == .pfx then some (bytesToString b.wire ++ sub) else none
+          | none => none
+        let check := fun (tbl : Op → List Binding) => expect.filterMap fun (m, alts) =>
+          match wireOf tbl m with
+          | none => some s!"{m}: no header binding"
+          | some w => match header w with
+            | [v] => if alts.contains v then none else some s!"{m}: header {w} = {v}, sent {alts.head!}"
+            | [] => some s!"{m}: header {w} missing"
+            | _ => some s!"{m}: header {w} repeated"
+        let specBad := check smithyOutputs
+        let modelBad := check implOutputs
+        -- status: the model's prescription (the one documented exception and the 206 rule included)
+        let wantStatus :=
+          if op == .GetObject && expect.any (fun e => e.1 == "content_range") then 206
+          else if op == .PutBucketPolicy then 204 else smithyStatus op
+        let extra := header "x-verif-extra" == ["kept"]
+        if st != wantStatus then specfail id ("output-status:" ++ opn) s!"status={status} expected={wantStatus}"
+        else if !extra then specfail id "output-extra-header-lost" opn
+        else if !specBad.isEmpty then specfail id ("output-member:" ++ opn) ("; ".intercalate specBad)
+        else if !modelBad.isEmpty then disagree id ("; ".intercalate modelBad) "response headers"
+        else if st != (if op == .GetObject && expect.any (fun e => e.1 == "content_range") then 206 else implStatus op) then
+          disagree id s!"table status {implStatus op}" s!"status={status}"
+        else agree id (if expect.isEmpty then "no-header-members" else "op:" ++ opn)
+  | _, _ => badline id
+
 def judge (fs : List String) : String :=
   match fs with
   | comp :: id :: rest =>
@@ -311,6 +362,7 @@ def judge (fs : List String) : String :=
     if comp == "svcroute" then judgeRoute id ins outs
     else if comp == "svcinput" then judgeInput id ins outs
     else if comp == "svcauth" then judgeAuth id ins outs
+    else if comp == "svcoutput" then judgeOutput id ins outs
     else badline id
   | _ => badline "?"
 
